@@ -3,7 +3,11 @@
 EXTENDS Solver, Json
 
 ASSUME JumpIsIteratedSweep
-MC_AllSweeps == SweepOutcomes
+MC_AllSweeps == SweepOutcomes \ {"approx"}        \* "approx" is explored by MC_Solver_zero.cfg
+MC_ZeroSweeps == {"converge", "notyet", "approx", "everr_le"}
+MC_OkOnly == {"ok"}
+MC_NoZero == {FALSE}
+MC_BothZero == BOOLEAN
 MC_AllDeco == DecoOutcomes
 MC_BothBig == BOOLEAN
 MC_RetrySweeps == {"converge", "notyet", "everr_le", "overflow"}
